@@ -201,6 +201,15 @@ def _copy_case(cls, text, kwargs, ctx, members=None, prepare=None):
             bad["note"] = (repr(other.note), "the user's note object")
         if other.uuid == obj.uuid:
             bad["uuid_shared"] = (other.uuid, "a fresh identifier")
+        if members and not bad:
+            # members attached to nested objects are data too: same lines at the same places
+            for path, _lines in members:
+                a, b = obj, other
+                for attr in path:
+                    a = a[attr] if isinstance(attr, int) else getattr(a, attr)
+                    b = b[attr] if isinstance(attr, int) else getattr(b, attr)
+                if [m.line for m in b.items] != [m.line for m in a.items]:
+                    bad["members"] = ([m.line for m in b.items], [m.line for m in a.items])
         if bad:
             kf = None
             if cls == "Address" and text == "0.0.0.0/0" and kwargs.get("platform") == "ios" and \
@@ -241,6 +250,12 @@ def _small(ctx, only):
         for n in (1, 2):
             _copy_case("AddrGroup", head + "\n" + "\n".join(" " + m for m in mem[:n]),
                        dict(platform=plat, indent=" "), ctx)
+        if plat == "ios":
+            # a nested group reference that carries its own members (not part of the text)
+            nested = ["host 10.5.5.5", "10.6.0.0 255.255.0.0"]
+            _copy_case("AddressAg", "group-object B", dict(platform=plat), ctx, members=[((), nested)])
+            _copy_case("AddrGroup", head + "\n host 10.0.0.1\n group-object B\n 10.7.0.0 255.255.0.0",
+                       dict(platform=plat), ctx, members=[(("items", 1), nested)])
         for r in ("remark text", "10 remark 10 permit ip any any"):
             _copy_case("Remark", r, dict(platform=plat), ctx)
     for w in ("10.0.0.0 0.0.0.3", "10.0.0.5 0.0.1.3", "0.0.0.0 255.255.255.255"):
